@@ -7,6 +7,7 @@ from pyvc import spec
 def mksub(kind, mw=None, dens=None, sa=None, name='s'):
     """A real pyplate Substance with the physical constants of a counter-model."""
     from pyplate import Substance
+    mw, dens, sa = fr(mw), fr(dens), fr(sa)
     if kind == 1:
         s = Substance.solid(name, float(mw))
         if dens is not None:
